@@ -266,7 +266,7 @@ def main():
                           'by_class': classes, 'backend': 'cbmc 6.11 SAT (%s)' % (h.solver or 'minisat'),
                           'solver_s': res.get('solver_s'), 'cached': bool(res.get('cached')),
                           'extracted': {k: {'file': v['file'], 'lines': v['lines'], 'sha256_body': v['sha256_body'][:16],
-                                            'rules_fired': sum(n for _, n in v['rules_fired'])}
+                                            'rules_fired': sum(n for _, n in v['rules_fired']), **({'slice': v['slice']} if v.get('slice') else {})}
                                         for k, v in res['functions'].items()},
                           'note': h.note})
         for i, o in enumerate([o for o in rel if o['status'] != 'SUCCESS']):
